@@ -812,16 +812,9 @@ def m4_apply_args(schema: Schema, rep: Report):
             if cb is None:
                 continue
             # is there an assignment consistent with the conditions so far in which the member is an Aggregate of a foreign class?
-            known = {}
-            consistent = True
-            for c, want in cb:
-                if c.kind == "atom":
-                    v = want if c.pol else not want
-                    if c.atom in known and known[c.atom] != v:
-                        consistent = False
-                    known[c.atom] = v
-            if not consistent:
-                continue
+            known = PT.simple_conds(cb)
+            if PT.implies(cb, PT.atom("$never")) is True:
+                continue  # contradictory conditions: not a feasible path
             is_agg = [known.get(a) for a in agg]
             in_list = known.get(member[0])
             if (not agg or any(x is not False for x in is_agg)) and in_list is not True:
